@@ -80,11 +80,13 @@ def lru_stems_from_parsed_url(parsed_url, suffix_aware=True):
         lru.append("f:" + fragment)
 
     # User
-    if user:
+    # NOTE: an empty user or password (`http://@host`, `http://user:@host`)
+    # is kept as an empty stem, like an empty port, so the url can be rebuilt
+    if user is not None and (user or password is None):
         lru.append("u:" + user)
 
     # Password
-    if password:
+    if password is not None:
         lru.append("w:" + password)
     return lru
 
